@@ -358,6 +358,13 @@ def family():
                                          'initial': initial, 'attrs': [['null', 'true'], ['related_model', '"vapp.Alpha"']] +
                                          ([['unique', 'false']] if ftype == 'OneToOneField' else [])}
     cases = [
+        # a later change of the SAME column that has no initial value of its own (length, index, NULL allowed again)
+        # follows the one that carries it: the value given first still fills the column
+        [{'t': 'AddField', 'model': 'Alpha', 'field': 'tag', 'ftype': 'CharField', 'initial': '"n/a"',
+          'attrs': [['max_length', '20'], ['null', 'true']]}, cf('tag', None, ('max_length', '40'))],
+        [cf('qty', '7', ('null', 'false')), cf('qty', None, ('null', 'true'))],
+        [add('extra', '3'), cf('extra', None, ('db_index', 'true')), cf('note', '"n/a"', ('null', 'false')),
+         cf('note', None, ('max_length', '30'))],
         # a name that is freed by a rename and used again: each column keeps its own initial value
         [cf('code', '"LEGACY"', ('null', 'false')),
          {'t': 'RenameField', 'model': 'Alpha', 'old': 'code', 'new': 'old_code', 'db_column': None, 'db_table': None},
@@ -461,6 +468,24 @@ def general_case(rng, seed, fixed=None):
         after = dbrig.abs_rows()
         rep['problems_' + mode] = judge_rows(sig0, muts, before, after)
     rep['problems'] = rep.get('problems_stepwise', [])
+    if fixed is not None:
+        # third mode, family only: ONE AppMutator fed one mutation at a time (the public run_mutation(); what a caller
+        # gets who hands over an app's evolutions one by one): no optimiser, but the operations on a model are merged
+        # into one table rebuild
+        from django_evolution.mutators import AppMutator
+        dbrig.reset_db('default')
+        dbrig.create_tables(models, 'default')
+        dbrig.insert_rows(models, random.Random(seed), n_rows=6)
+        before = dbrig.abs_rows()
+        try:
+            am = AppMutator(app_label='vapp', project_sig=sig0.clone(), database_state=dbrig.scan_state('default'),
+                            database='default')
+            for m in muts:
+                am.run_mutation(sigs.real_mutation(m))
+            dbrig.run_sql(am.to_sql(), 'default')
+            rep['problems_merged'] = judge_rows(sig0, muts, before, dbrig.abs_rows())
+        except Exception as e:
+            rep['merged_failed'] = type(e).__name__
     return rep
 
 
@@ -623,6 +648,11 @@ def run(ctx):
             ctx.count('general:problems_stepwise')
             ctx.fail(F_EMBED_OVERWRITES if embedded_not_null(rep) else None,
                      'row data is not preserved (one mutation at a time): %s' % rep['problems'][0], rep)
+        pm = rep.get('problems_merged', [])
+        if pm and pm != rep['problems'] and pm != rep.get('problems_batched', []):
+            ctx.count('general:problems_merged_only')
+            ctx.fail(None, 'row data is not preserved (one mutator fed one mutation at a time, operations merged into one '
+                     'rebuild): %s' % pm[0], dict(rep, mode='merged'))
         pb = rep.get('problems_batched', [])
         if pb and pb != rep['problems']:
             ctx.count('general:problems_batched_only')
@@ -648,5 +678,15 @@ def replay(ctx, obj):
         aligned, w = detect_aligned()
         print('parameter order aligned:', aligned, w['row_after'])
         return 0 if aligned else 1
+    if isinstance(r, dict) and 'spec' in r and 'mutations' in r and 'seed' in r:
+        # a general case: run it again in every mode and report what the row oracle says
+        import random as _random
+        rep = general_case(_random.Random(0), r['seed'], fixed=(r['spec'], r['mutations']))
+        bad = []
+        for k in ('problems_stepwise', 'problems_batched', 'problems_merged'):
+            for pr in (rep or {}).get(k, []):
+                print('%s: %s' % (k[len('problems_'):], pr))
+                bad.append(pr)
+        return 1 if bad else 0
     print('re-run with VERIF_SEED=%s ./check C02 (the case is regenerated from the seed)' % obj.get('seed'))
     return 0
